@@ -555,3 +555,87 @@ func c11FieldDerefSSA(r *Run, rule string, navID *FuncInfo) {
 		}
 	}
 }
+
+// indexTailRule (C11.R9): `xs[0].Name` - an index expression with a member tail - never yields the
+// element itself. On every path of an evaluator function that takes the index node and returns a
+// value without error, the value either comes from a function that was handed the node (which then
+// has the same obligation), or the path has found the node's callee to be nil.
+func indexTailRule(r *Run, rule string) {
+	w := r.W
+	w.SSA()
+	m := w.coreModel()
+	n := 0
+	for _, f := range w.compilerMethods() {
+		fn := w.SSAFunc(f)
+		if fn == nil {
+			continue
+		}
+		var node *ssa.Parameter
+		for _, prm := range fn.Params {
+			if namedIs(prm.Type(), astPath, "IndexExpression") {
+				node = prm
+			}
+		}
+		if node == nil || fn.Signature.Results().Len() != 2 {
+			continue
+		}
+		paths, ok := walkPathsUnrolled(fn, nil, m.inline, 50000)
+		if !ok {
+			r.Lost(rule, "paths of "+f.Name())
+			continue
+		}
+		n++
+		nYield, bad := 0, ""
+		var badAt token.Pos
+		for _, p := range paths {
+			if p.end != "return" || len(p.results) != 2 || !p.knownNil(p.results[1]) {
+				continue
+			}
+			res := p.resolve(p.results[0])
+			if isNilConst(res) || isNilConst(p.resolve(stripIface(res))) {
+				continue
+			}
+			// handed on to a function that received the node
+			if ex, isEx := res.(*ssa.Extract); isEx {
+				if call, isCall := ex.Tuple.(*ssa.Call); isCall {
+					passes := false
+					for _, a := range call.Call.Args {
+						if p.resolve(a) == ssa.Value(node) {
+							passes = true
+						}
+						// the tail itself was evaluated: the value of node.Callee
+						if base, isLd := isFieldLoadOf(p.resolve(stripIface(p.resolve(a))), astPath, "IndexExpression", "Callee"); isLd && p.resolve(base) == ssa.Value(node) {
+							passes = true
+						}
+					}
+					if passes {
+						continue
+					}
+				}
+			}
+			calleeNil := false
+			for _, d := range p.decisions {
+				x, op, isCmp := isNilCompare(p, d.cond)
+				if !isCmp {
+					continue
+				}
+				if base, isLd := isFieldLoadOf(p.resolve(x), astPath, "IndexExpression", "Callee"); isLd && p.resolve(base) == ssa.Value(node) && d.truth == (op == token.EQL) {
+					calleeNil = true
+				}
+			}
+			nYield++
+			if !calleeNil {
+				bad, badAt = "a value is yielded on a path that has not found the node's callee to be nil: the member tail of the path is dropped", p.ret.Pos()
+			}
+		}
+		switch {
+		case bad != "":
+			r.Bad(rule, f.Name(), "tail of an index path", w.Pos(badAt), bad+" (`people[0].Name` would yield the element people[0])")
+		default:
+			r.Ok(rule, f.Name(), "tail of an index path", w.Pos(fn.Pos()), fmt.Sprintf("%d yielding path(s), each with the callee found nil; every other value comes from a function that was handed the node", nYield))
+		}
+	}
+	if n == 0 {
+		r.Lost(rule, "evaluator functions that take the index node")
+	}
+}
